@@ -2,5 +2,5 @@
 # seed sweep of all quick commands against the frozen snapshot of /repo
 export VERIF_REPO=$VP_RUN_REPO
 ./check --setup > setup.log 2>&1
-for sd in 2 3 4 5 6 7; do for i in 01 02 03 04 05 06 07 08 09 10 11 12 13 14 15 16 17 18 19 20; do
+for sd in ${SWEEP_SEEDS:-2 3 4 5 6 7}; do for i in 01 02 03 04 05 06 07 08 09 10 11 12 13 14 15 16 17 18 19 20; do
   VERIF_SEED=$sd ./check C$i --tier quick > sweep_${sd}_C$i.log 2>&1; echo "seed=$sd C$i rc=$? $(tail -1 sweep_${sd}_C$i.log)"; done; done
